@@ -1,5 +1,6 @@
 #!/bin/bash
 # usage: tools/try_all.sh <patch.diff> - apply, run all quick checks, revert; print only verdict lines
+# NEVER run this while tools/seed_matrix.py, tools/twin_matrix.py or ./check selftest are running: they read /repo, which this script patches in place.
 patch="$(readlink -f "$1")"; cd /verif
 git -C /repo diff --quiet || { echo "/repo not clean"; exit 3; }
 git -C /repo apply "$patch" || { echo "patch does not apply"; exit 3; }
